@@ -17,7 +17,7 @@ def build(tree, S, protos):
     """Real composite for an abstract tree; every user-facing prototype object is appended to protos."""
     from sktime.forecasting.compose import (EnsembleForecaster, TransformedTargetForecaster,
                                             MultiplexForecaster, StackingForecaster)
-    Leaf, Tag, SkipTag, Meta = S
+    Leaf, Tag, SkipTag, Meta, NoUpd = S
     k = tree["kind"]
     if k == "leaf":
         f = Leaf(id=tree["id"])
@@ -29,7 +29,7 @@ def build(tree, S, protos):
     if k == "pipe":
         ts = []
         for i, t in enumerate(tree["ts"]):
-            tr = (SkipTag if t >= 7 else Tag)(k=t)
+            tr = (SkipTag if t >= 7 else NoUpd if t in (4, 5) else Tag)(k=t)
             protos.append(tr)
             ts.append(("t%d" % i, tr))
         return TransformedTargetForecaster(ts + [("f", kids[0])])
@@ -63,6 +63,9 @@ def observe(cfg, variant=0):
         n, fh = cfg["n"], list(cfg["fh"])
         fharg = fh if variant % 2 == 0 else np.array(fh)
         f.fit(yser(0, n - 1), fh=fharg)
+        if cfg.get("resel", 0):
+            f.set_params(selected_forecaster="m%d" % (cfg["resel"] - 1))
+            f.fit(yser(0, n - 1), fh=fharg)
         for u in cfg["ups"]:
             f.update(yser(u["lo"], u["hi"]), update_params=bool(u["upd"]))
         p = f.predict()
@@ -90,14 +93,14 @@ def build_shared(tree, S, protos):
 
     class Shared:
         pass
-    Leaf, Tag, SkipTag, Meta = S
+    Leaf, Tag, SkipTag, Meta, NoUpd = S
 
     def leaf_factory(id=1):
         return next(it)
 
     def tag_factory(k=1):
         return next(it)
-    return build(tree, (leaf_factory, tag_factory, tag_factory, Meta), [])
+    return build(tree, (leaf_factory, tag_factory, tag_factory, Meta, tag_factory), [])
 
 
 def run(ctx):
